@@ -22,12 +22,12 @@ NewClient(lg, v111, http) ==
      tok |-> "nil", tokq |-> <<>>, dispW |-> <<>>, unsent |-> {},
      recheck |-> <<>>, owed |-> <<>>, stale |-> {}, intok |-> 0, trigc |-> <<>>,
      gotByGet |-> <<>>, taintG |-> FALSE, taintU |-> FALSE, taintW |-> FALSE, dropped |-> <<>>, hUnsub |-> {},
-     lastTokT |-> 0, lastAcc |-> <<>>]
+     lastTokT |-> 0, lastAcc |-> <<>>, tid |-> ""]
 
 InitO(tr) ==
     [tr |-> tr, conns |-> <<>>, ann |-> <<>>, norm |-> <<>>, keyn |-> <<>>,
      mqsubs |-> {}, mqpend |-> <<>>, handed |-> <<>>, window |-> {},
-     refetch |-> <<>>, ctrig |-> <<>>, stopping |-> FALSE, final |-> FALSE]
+     refetch |-> <<>>, ctrig |-> <<>>, resets |-> <<>>, stopping |-> FALSE, final |-> FALSE]
 
 V(p, why, kf) == [p |-> p, tr |-> o.tr, l |-> l, why |-> why, kf |-> kf]
 
@@ -352,7 +352,7 @@ H_note(r) ==
             IN IF cl.tokq = <<>> THEN Res(o, {})
                ELSE LET T == Head(cl.tokq).l
                         g2 == IF r.had THEN InvalidateBefore(cl.grant, DOMAIN cl.grant, T) ELSE cl.grant
-                    IN Res(SetConn(o, r.c, [cl EXCEPT !.tok = Head(cl.tokq).tok, !.tokq = Tail(cl.tokq), !.grant = g2,
+                    IN Res(SetConn(o, r.c, [cl EXCEPT !.tok = Head(cl.tokq).tok, !.tid = Head(cl.tokq).tid, !.tokq = Tail(cl.tokq), !.grant = g2,
                                                        !.intok = IF r.had THEN T ELSE 0,
                                                        !.lastTokT = IF r.had THEN T ELSE @]), {})
       [] r.kind = "tokenDone" /\ r.c \in DOMAIN o.conns ->
@@ -388,6 +388,12 @@ H_mreq(r) ==
                  THEN {V("C11", r.t \o " request " \o r.subj \o " on behalf of closed connection " \o r.c, "")} ELSE {}
         tokV == IF ConnBound(r.t) /\ known /\ ~o.conns[r.c].http /\ r.tok # o.conns[r.c].tok
                 THEN {V("C05", r.t \o " request " \o r.subj \o " carries token " \o r.tok \o " but the connection's token is " \o o.conns[r.c].tok, "")} ELSE {}
+        \* a token reset reaches only connections whose current token id is listed
+        tidV == IF r.t = "auth" /\ r.n = "tokenreset" /\ known
+                THEN LET cl == o.conns[r.c]
+                     IN IF cl.tid # "" /\ \E i \in DOMAIN o.resets : cl.tid \in SeqToSet(o.resets[i]) THEN {}
+                        ELSE {V("C10", "token reset auth request for connection " \o r.c \o " whose token id \"" \o cl.tid \o "\" is not listed in any token reset", "")}
+                ELSE {}
         subV == IF r.t = "get" /\ ("event." \o r.n) \notin o.mqsubs
                 THEN {V("C09", "get request for " \o r.n \o " without an established event subscription", "")} ELSE {}
         callV == IF r.t = "call" /\ known
@@ -411,7 +417,7 @@ H_mreq(r) ==
                        rechk == \E rid \in DOMAIN cl.recheck : KeyOf(cl, rid) = r.key /\ cl.recheck[rid].k = 0
                    IN SetConn(o1, r.c, [cl EXCEPT !.recheck = rc2, !.lastAcc = Put(@, r.key, [l |-> l, rechk |-> rechk])])
               ELSE o1
-    IN Res(o2, badV \cup cidV \cup goneV \cup tokV \cup subV \cup callV)
+    IN Res(o2, badV \cup cidV \cup goneV \cup tokV \cup subV \cup callV \cup tidV)
 
 -----------------------------------------------------------------------------
 Content(r) == IF r.kind = "m" THEN Model(r.val) ELSE Coll(r.list)
@@ -477,8 +483,10 @@ H_mevt(r) ==
                 ct2 == [n \in DOMAIN o.ctrig \cup SeqToSet(r.matchacc) |->
                            IF n \in SeqToSet(r.matchacc) THEN Append(Get(o.ctrig, n, <<>>), l) ELSE o.ctrig[n]]
             IN Res([o EXCEPT !.window = @ \cup hit, !.ctrig = ct2], {})
+      [] r.ns = "system" /\ r.ev = "tokenReset" ->
+            Res([o EXCEPT !.resets = Append(@, r.tids)], {})
       [] r.ns = "conn" /\ r.ev = "token" /\ r.c \in DOMAIN o.conns /\ ~r.bad ->
-            Res(SetConn(o, r.c, [o.conns[r.c] EXCEPT !.tokq = Append(@, [tok |-> r.tok, l |-> l])]), {})
+            Res(SetConn(o, r.c, [o.conns[r.c] EXCEPT !.tokq = Append(@, [tok |-> r.tok, l |-> l, tid |-> r.tid])]), {})
       [] OTHER -> Res(o, {})
 
 -----------------------------------------------------------------------------
